@@ -291,10 +291,19 @@ impl Hist {
                 let done: Vec<_> = self.chain.complete_shards(pool).into_iter().filter(|s| s.1 <= tip).collect();
                 if !done.is_empty() {
                     let stale = self.tainted_stale_subtree_root;
+                    let annotation = self.tainted_stale_annotation;
                     self.w.put_subtree_roots(pool, &done).map_err(|e| {
-                        // Known finding (C06): a stale root of a subtree whose completing block was reorganised away
-                        // makes every later insertion of the new root fail with Conflict.
-                        let sig = if stale && e.contains("Conflict") { SIG_STALE_SUBTREE_ROOT } else { "put-subtree-roots-failed" };
+                        // Known findings (C06): a stale root of a subtree whose completing block was reorganised away
+                        // makes every later insertion of the new root fail with Conflict; so does the stale cached
+                        // hash that shardtree keeps above a truncation point (the root the wallet derived itself by
+                        // scanning the abandoned branch).
+                        let sig = if stale && e.contains("Conflict") {
+                            SIG_STALE_SUBTREE_ROOT
+                        } else if annotation && e.contains("Conflict") {
+                            SIG_TREE_CONFLICT
+                        } else {
+                            "put-subtree-roots-failed"
+                        };
                         Fail::new(sig, format!("{step}: pool {pool}, shards {:?}: {e}", done.iter().map(|d| (d.0, d.1)).collect::<Vec<_>>()))
                     })?;
                     self.flags.subtree_roots_put += done.len() as u32;
